@@ -21,6 +21,9 @@ try:
         if not checks:
             print('%-10s (recorded as not caught: %s)' % (name, (meta.get('history') or '')[:80]))
             continue
+        if meta.get('applies_to_head') is False:
+            print('%-10s (written against an earlier HEAD; see stale_note)' % name)
+            continue
         if subprocess.call(['git', '-C', repo, 'apply', os.path.join(d, 'patch.diff')]) != 0:
             print('%-10s patch does not apply any more' % name)
             continue
